@@ -9,6 +9,9 @@ C04.b  [effect] no recursion among library functions; every other loop reachable
 C04.c  [flow] when the limit is hit the call still ends in exactly one active state chosen among the requests that passed
        their guards (C02.d + C01.a on the same interpretation).
 C04.d  [effect] a leftover request stays in core.request and its only consumers are the guarded loops (C02.b).
+C04.e  [type] the configured limit survives every order of the configuration setters.
+C04.f  [cmp] a veto always takes, whoever casts it -- the root head (origin = the invalid id) included (shares the C03.e evaluation of
+       cancelPendingTransition on the comparison domain of the origin id).
 """
 from lint import facts, ir, effects, anchors, loops, cfg as cfgmod
 from lint.common import AnalysisBroken
@@ -187,6 +190,9 @@ def run(run):
             run.guard('substitution loops', substitution_loops, run, F, E, F.label())
             run.guard('all loops', all_loops, run, F, E)
             run.guard('requested writers', c02.requested_writers, run, F, E)
+            # "chosen among the requests that passed their guards": a veto always takes, whoever casts it (C03.e evaluation)
+            from rules import c03 as _c03
+            run.guard('veto takes', _c03.veto_takes, run, F, 'C04.f')
             facts.drop(F)
             cfgmod.clear_cache()
     for o in run.obligations:
@@ -203,6 +209,7 @@ def run(run):
     run.floor('C04.b', 8)
     run.floor('C04.c', 100)
     run.floor('C04.d', 30)
+    run.floor('C04.f', 4)
     from gen import static_units as _su
     run.guard('configuration setters', _su.report, run, 'C04.e', _su.config_unit('C04.e'))      # the configured value survives every order of the setters
     run.floor('C04.e', 1)
